@@ -8,6 +8,8 @@ oracle; `explore` re-runs the function once per decision sequence (DESIGN 2.3).
 from __future__ import annotations
 
 import ast
+import os
+import sys
 import inspect
 import sys
 import types
@@ -22,6 +24,10 @@ SOLVER_TIMEOUT_MS = 10000
 
 class Unsupported(Exception):
     """The construct is outside the verified subset - never a violation."""
+
+
+class _NotAList(Exception):
+    pass
 
 
 class Infeasible(Exception):
@@ -264,6 +270,9 @@ def regex_relation(r1, r2):
     return _REGEX_REL[key][0]
 
 
+FOLD_REGISTRY = {}  # fold-step hash -> (kinds, accumulators, index, results): the steps met while verifying one contract
+
+
 # --------------------------------------------------------------------------- source index
 
 _MODULE_INDEX = {}
@@ -345,6 +354,7 @@ class Interp:
         self.sub_pc_start = None
         self.regex_facts = []
         self.model, self.model_ok = None, 0
+        self.decisions = []  # the branch conditions taken on this path (a subset of pc: the rest are facts)
         self.side_obligations = []  # (label, premises, goal): preconditions at modular call sites, asserts
         self.flags = {}
 
@@ -453,6 +463,7 @@ class Interp:
             val, decided = e
             if decided:
                 self.assume(c if val else z3.Not(c))
+                self.decisions.append(c if val else z3.Not(c))
             return val
         short = self._regex_shortcut(c)
         if short is not None:
@@ -469,6 +480,7 @@ class Interp:
         if t and f:
             d = self.oracle.decide()
             self.assume(c if d else z3.Not(c))
+            self.decisions.append(c if d else z3.Not(c))
             return d
         if t:
             self.oracle.forced(True)
@@ -625,39 +637,42 @@ class Interp:
         """
         results = []
         work = [[]]
-        saved = (self.heap, self.oracle, self.trace, len(self.pc), list(self.index_terms), len(self.regex_facts))
+        saved = (self.heap, self.oracle, self.trace, len(self.pc), list(self.index_terms), len(self.regex_facts), len(self.decisions))
         outer_start = self.sub_pc_start
         n = 0
-        while work:
-            prefix = work.pop()
-            n += 1
-            if n > 400:
-                raise Unsupported("too many paths in loop body")
-            fr, heap = self.clone_state(frame)
-            self.heap = heap
-            self.oracle = Oracle(prefix)
-            self.trace = []
-            self.solver.push()
-            self.sub_pc_start = None
-            try:
+        try:
+            while work:
+                prefix = work.pop()
+                n += 1
+                if n > 400:
+                    raise Unsupported("too many paths in loop body")
+                fr, heap = self.clone_state(frame)
+                self.heap = heap
+                self.oracle = Oracle(prefix)
+                self.trace = []
+                self.solver.push()
+                self.sub_pc_start = None
                 try:
-                    ctrl = thunk(fr)
-                    exit_ = ctrl if ctrl is not None else ("next",)
-                except PyRaise as e:
-                    exit_ = ("raise", e.exc)
-                start = self.sub_pc_start if self.sub_pc_start is not None else saved[3]
-                results.append({"pc": self.pc[start:], "trace": self.trace, "exit": exit_})
-            except Infeasible:
-                pass
-            finally:
-                work.extend(self.oracle.alts)
-                self.solver.pop()
-                del self.pc[saved[3]:]
-                self.model_ok = min(self.model_ok, saved[3])
-                del self.regex_facts[saved[5]:]
-                self.index_terms = list(saved[4])
-        self.heap, self.oracle, self.trace = saved[0], saved[1], saved[2]
-        self.sub_pc_start = outer_start
+                    try:
+                        ctrl = thunk(fr)
+                        exit_ = ctrl if ctrl is not None else ("next",)
+                    except PyRaise as e:
+                        exit_ = ("raise", e.exc)
+                    start = self.sub_pc_start if self.sub_pc_start is not None else saved[3]
+                    results.append({"pc": self.pc[start:], "trace": self.trace, "exit": exit_, "decisions": self.decisions[saved[6]:]})
+                except Infeasible:
+                    pass
+                finally:
+                    work.extend(self.oracle.alts)
+                    self.solver.pop()
+                    del self.pc[saved[3]:]
+                    self.model_ok = min(self.model_ok, saved[3])
+                    del self.regex_facts[saved[5]:]
+                    del self.decisions[saved[6]:]
+                    self.index_terms = list(saved[4])
+        finally:
+            self.heap, self.oracle, self.trace = saved[0], saved[1], saved[2]
+            self.sub_pc_start = outer_start
         return results
 
     # ---- name resolution
@@ -1226,7 +1241,7 @@ class Interp:
         for n in assigned:
             frame.vars[n] = Poison(n)
 
-    def fold_loop(self, spec, target, body, frame, carried, idx):
+    def fold_loop(self, spec, target, body, frame, carried, idx, seq_only=frozenset()):
         """fold rule (DESIGN 2.3 rule 3, lemma `fold_inv`): a loop whose only loop-carried state is the
         variables `carried`, each updated by a branch-free function of (carried, element), is the fold
         of that function over the domain.  The fold is an uninterpreted function named by the
@@ -1244,6 +1259,10 @@ class Interp:
             sq = None
             if isinstance(v, (GenVal, LazyGen, list)) or lib.as_iterator(self, v) is not None:
                 sq = lib.seq_of(self, v)
+            elif S.is_term(v) and n not in seq_only and lib._known(self, Py.is_list(v)):
+                inits.append(z3.simplify(Py.items(v)))  # a list value: carried as a list (methods, `in`, iteration)
+                kinds.append("list")
+                continue
             elif S.is_term(v) and lib._known(self, z3.Or(Py.is_list(v), Py.is_tuple(v))):
                 sq = z3.simplify(S.seq_items(v))  # an iterable that is only iterated: its item sequence
             if sq is not None:
@@ -1252,14 +1271,20 @@ class Interp:
             else:
                 inits.append(self.to_term(v))
                 kinds.append("term")
-        accs = [z3.Const(f"acc!{self.loop_depth}!{k}", S.SeqPy if kinds[k] == "seq" else Py) for k in range(len(carried))]
+        accs = [z3.Const(f"acc!{self.loop_depth}!{k}", Py if kinds[k] == "term" else S.SeqPy) for k in range(len(carried))]
+        # element invariants of sequence-valued accumulators: what is registered for the initial value
+        # is assumed of the accumulator inside the step (induction hypothesis) and must be derivable
+        # for the step's result (checked below), then holds of the fold
+        acc_facts = [lib.elem_facts_for(self, inits[k]) if kinds[k] != "term" else [] for k in range(len(carried))]
+        saved_elem_facts = list(getattr(self, "elem_facts", []))
+        self.elem_facts = saved_elem_facts + [(accs[k], f) for k in range(len(carried)) for f in acc_facts[k]]
 
         def thunk(fr):
             self.assume(spec.bound(idx))
             self.index_terms.append(idx)
             self.sub_pc_start = len(self.pc)
             for n, a, kd in zip(carried, accs, kinds):
-                fr.vars[n] = GenVal([("yieldfrom", a)]) if kd == "seq" else a
+                fr.vars[n] = GenVal([("yieldfrom", a)]) if kd == "seq" else (Py.list(a) if kd == "list" else a)
             self.assign(target, spec.elem(idx), fr)
             ctrl = self.exec_block(body, fr)
             if ctrl is not None and ctrl[0] != "continue":
@@ -1272,24 +1297,86 @@ class Interp:
                     if sq is None:
                         raise Unsupported("fold step result is not a sequence")
                     outs.append(sq)
+                elif kd == "list":
+                    t = self.to_term(v)
+                    if not lib._known(self, Py.is_list(t)):
+                        raise _NotAList(n)
+                    outs.append(z3.simplify(Py.items(t)))
                 else:
                     outs.append(self.to_term(v))
-            self._fold_out = outs
+            self.trace.append(("foldout", outs))
             return None
 
-        alts = self.explore_sub(frame, thunk)
-        if len(alts) != 1 or alts[0]["pc"] or alts[0]["exit"][0] != "next" or alts[0]["trace"]:
-            raise Unsupported("fold step must be a single branch-free, effect-free path")
-        outs = self._fold_out
-        txt = "|".join(z3.simplify(o).sexpr() for o in outs) + "@" + ",".join(kinds)
+        try:
+            alts = self.explore_sub(frame, thunk)
+        except _NotAList as e:
+            # a variable that starts as a list and is rebound to some other iterable (an iterator, a
+            # generator): carried as the sequence of its items
+            self.elem_facts = saved_elem_facts
+            return self.fold_loop(spec, target, body, frame, carried, idx, seq_only=frozenset(seq_only) | {e.args[0]})
+        for a in alts:
+            if a["exit"][0] != "next" or len(a["trace"]) != 1 or a["trace"][0][0] != "foldout":
+                raise Unsupported("fold step must be effect-free and end normally on every path")
+        # one function of (carried, element): the alternatives are merged by their branch conditions
+        alts.sort(key=lambda a: "&".join(sorted(S.canon_text(d) for d in a["decisions"])))
+        outs = list(alts[-1]["trace"][0][1])
+        for a in reversed(alts[:-1]):
+            cond = z3.And(*a["decisions"]) if a["decisions"] else z3.BoolVal(True)
+            outs = [z3.If(cond, x, y) for x, y in zip(a["trace"][0][1], outs)]
+        for k in range(len(carried)):
+            for f in acc_facts[k]:
+                if not lib.derives_elem_fact(self, outs[k], f):
+                    raise Unsupported(f"element invariant of the accumulator {carried[k]!r} is not derivable for the step's result")
+        self.elem_facts = [(q, f) for (q, f) in getattr(self, "elem_facts", []) if not any(z3.eq(q, a) for a in accs)]
+        txt = "|".join(S.canon_text(o) for o in outs) + "@" + ",".join(kinds)
         h = hashlib.sha1(txt.encode()).hexdigest()[:10]
+        if os.environ.get("PYVC_DEBUG_FOLD"):
+            print(f"[fold {h}] {txt}", file=sys.stderr)
+        # the same step written differently: a step already met (by the other side of the comparison,
+        # typically) that is provably the same function of (accumulator, element) under what is known
+        # on this path gives the same fold - decided by the solver, not by the text
+        step_facts = [c for a in alts for c in a["pc"] if not any(z3.eq(c, d) for d in a["decisions"])] if len(alts) == 1 else []
+        if h not in FOLD_REGISTRY:
+            for h0, (kinds0, accs0, idx0, outs0) in FOLD_REGISTRY.items():
+                if len(outs0) != len(outs) or any(a.sort() != b.sort() for a, b in zip(accs0, accs)):
+                    continue
+                sub = [(a0, a1) for a0, a1 in zip(accs0, accs)] + [(idx0, idx)]
+                same = z3.And(*[z3.substitute(o0, *sub) == o1 for o0, o1 in zip(outs0, outs)])
+                q = z3.Solver()
+                q.set("timeout", 5000)
+                for c in self.pc:
+                    q.add(c)
+                q.add(spec.bound(idx))
+                for c in step_facts:
+                    q.add(c)
+                for k in range(len(carried)):
+                    j = z3.Int("j!inv")
+                    for f in acc_facts[k]:
+                        q.add(z3.ForAll([j], z3.Implies(z3.And(j >= 0, j < z3.Length(accs[k])), f(accs[k][j]))))
+                q.add(z3.Not(same))
+                self.solver_calls += 1
+                rq = q.check()
+                if os.environ.get("PYVC_DEBUG_FOLD"):
+                    print(f"[fold match {h} ~ {h0}] {rq}", file=sys.stderr)
+                    if rq == z3.sat:
+                        m = q.model()
+                        for o0, o1 in zip(outs0, outs):
+                            print("   old:", str(z3.simplify(z3.substitute(o0, *sub)))[-700:].replace("\n", " "), file=sys.stderr)
+                            print("   new:", str(z3.simplify(o1))[-700:].replace("\n", " "), file=sys.stderr)
+                if rq == z3.unsat:
+                    h = h0
+                    break
+        if h not in FOLD_REGISTRY:
+            FOLD_REGISTRY[h] = (list(kinds), list(accs), idx, list(outs))
         self.assumed.append(f"rule:fold(loop step {h})")
         for k, (n, kd) in enumerate(zip(carried, kinds)):
             sorts = [S.SeqPy] + [i.sort() for i in inits]
-            f = z3.Function(f"loopfold!{h}!{k}", *sorts, S.SeqPy if kd == "seq" else Py)
+            f = z3.Function(f"loopfold!{h}!{k}", *sorts, Py if kd == "term" else S.SeqPy)
             val = f(spec.key[1], *inits)
             self.assume(z3.Implies(z3.Length(spec.key[1]) == 0, val == inits[k]))
-            frame.vars[n] = GenVal([("yieldfrom", val)]) if kd == "seq" else val
+            for fct in acc_facts[k]:
+                self.elem_facts = getattr(self, "elem_facts", []) + [(val, fct)]
+            frame.vars[n] = GenVal([("yieldfrom", val)]) if kd == "seq" else (Py.list(val) if kd == "list" else val)
         for n in (_assigned_names(body) | _target_names(target)) - set(carried):
             frame.vars[n] = Poison(n)
 
@@ -1539,11 +1626,21 @@ def _target_names(t):
     return {n.id for n in ast.walk(t) if isinstance(n, ast.Name)}
 
 
+def _comprehension_targets(node):
+    """The Name nodes bound by comprehensions inside `node`: they live in the comprehension's own scope."""
+    out = set()
+    for n in ast.walk(node):
+        if isinstance(n, ast.comprehension):
+            out |= {id(m) for m in ast.walk(n.target) if isinstance(m, ast.Name)}
+    return out
+
+
 def _assigned_names(body):
     out = set()
     for s in body:
+        inner = _comprehension_targets(s)
         for n in ast.walk(s):
-            if isinstance(n, ast.Name) and isinstance(n.ctx, ast.Store):
+            if isinstance(n, ast.Name) and isinstance(n.ctx, ast.Store) and id(n) not in inner:
                 out.add(n.id)
     return out
 
